@@ -46,6 +46,10 @@ func c08Variant(i, v int) string {
 		return fmt.Sprintf("---@class Cls%d\n---@field n number\nlocal cls%d = {}\nreturn cls%d\n", i, i, i)
 	case 11: // uses the annotation class of another file
 		return fmt.Sprintf("---@type Cls%d\nlocal v%d = nil\nprint(v%d)\n", other, i, i)
+	case 13: // declares a class that every file in this variant (or 14) declares too: each declaration is flagged with the others as related information
+		return fmt.Sprintf("---@class DupCls\n---@field n%d number\nlocal dup%d = {}\nreturn dup%d\n", i, i, i)
+	case 14: // the same one line further down: the other files' warnings keep type, range and message, only their related locations move
+		return fmt.Sprintf("\n---@class DupCls\n---@field n%d number\nlocal dup%d = {}\nreturn dup%d\n", i, i, i)
 	case 12: // the empty file
 		return ""
 	case 8: // a second clean text
@@ -90,7 +94,7 @@ func runC08(res *lib.Result, tier string, seed int64, args []string) error {
 	if tier == "thorough" {
 		nHist = 1500
 	}
-	res.Rule = "histories of 6-22 events (didOpen, didChange with / without syntax errors, didSave, didClose, file creation / change / deletion on disk announced by didChangeWatchedFiles, fix-then-break cycles, edits left unsaved) over three files whose content is one of seven variants (clean, two syntax errors, semantic warnings, defines a cross-file global, uses another file's global, requires another file): (1) after EVERY event the folded publishDiagnostics view of the real server = the Lean bookkeeping model fed with the error maps the server computed (verif hook); (2) at the end every buffer is saved and the client view must equal the view of a freshly started server on the final files; (3) while a buffer is unsaved its file must show its syntax errors, else the saved non-syntax diagnostics; non-trivial = the history contains an unsaved edit and a file event; distinct by history"
+	res.Rule = "histories of 6-22 events (didOpen, didChange with / without syntax errors, didSave, didClose, file creation / change / deletion on disk announced by didChangeWatchedFiles, fix-then-break cycles, edits left unsaved) over three files whose content is one of fifteen variants (clean, syntax errors, semantic warnings, defines a cross-file global / function, the same with another parameter count, uses another file's global, requires another file, declares / uses an annotation class, declares a class other files declare too, empty), with scripted histories for the rare transitions (a required module created, a class's file deleted, a callee's parameter count changed, a duplicate declaration moved): (1) after EVERY event the folded publishDiagnostics view of the real server = the Lean bookkeeping model fed with the error maps the server computed (verif hook); (2) at the end every buffer is saved and the client view must equal the view of a freshly started server on the final files; (3) while a buffer is unsaved its file must show its syntax errors, else the saved non-syntax diagnostics; non-trivial = the history contains an unsaved edit and a file event; distinct by history"
 	drv, err := lib.StartDriver()
 	if err != nil {
 		return err
@@ -127,6 +131,19 @@ func runC08(res *lib.Result, tier string, seed int64, args []string) error {
 			delete(files, "sub/f2.lua")
 			disk["f0.lua"], files["f0.lua"] = 0, c08Variant(0, 0)
 			disk["f1.lua"], files["f1.lua"] = 5, c08Variant(1, 5) // require("sub.f2")
+		}
+		if hi%8 == 2 {
+			// f0 defines gf0(a, b), sub/f2 calls it with three arguments; the script rewrites f0 to gf0(a): the
+			// caller's warning keeps its place and changes its message
+			disk["f0.lua"], files["f0.lua"] = 3, c08Variant(0, 3)
+			disk["f1.lua"], files["f1.lua"] = 0, c08Variant(1, 0)
+			disk["sub/f2.lua"], files["sub/f2.lua"] = 4, c08Variant(2, 4)
+		}
+		if hi%8 == 6 {
+			// two files declare the same class; the script moves one declaration down a line
+			disk["f0.lua"], files["f0.lua"] = 13, c08Variant(0, 13)
+			disk["f1.lua"], files["f1.lua"] = 13, c08Variant(1, 13)
+			disk["sub/f2.lua"], files["sub/f2.lua"] = 0, c08Variant(2, 0)
 		}
 		if hi%8 == 5 {
 			// every file declares a class and uses the next one's... here: all files exist, file x declares, x-1 uses
@@ -234,6 +251,12 @@ func runC08(res *lib.Result, tier string, seed int64, args []string) error {
 			// a module required by its dotted path (sub.f2) is created while the requiring file shows "not found"
 			script = []scripted{{2, 9, 0}}
 		}
+		if hi%8 == 2 {
+			script = []scripted{{0, 9, 9}}
+		}
+		if hi%8 == 6 {
+			script = []scripted{{0, 9, 14}}
+		}
 		if hi%8 == 5 {
 			// a file that declares an annotation class is deleted while another file uses the class
 			x := 2 // variants [10, 11, 10]: f1 uses the class f2 declares
@@ -249,7 +272,7 @@ func runC08(res *lib.Result, tier string, seed int64, args []string) error {
 			}
 			script = []scripted{{a, 0, 0}, {a, 2, []int{1, 6, 7}[r.Intn(3)]}, {a, 7, 0}, {b, 0, 0}, {b, 2, []int{0, 8}[r.Intn(2)]}, {b, 5, 0}}
 		}
-		if hi%8 == 5 || hi%8 == 1 {
+		if hi%8 == 5 || hi%8 == 1 || hi%8 == 2 || hi%8 == 6 {
 			nEv = r.Intn(2) // the comparison with a fresh server follows (almost) directly
 		} else if hi%3 == 1 {
 			nEv = 1 + r.Intn(4) // short histories: the state right after an event is compared with a fresh server
@@ -390,8 +413,11 @@ func runC08(res *lib.Result, tier string, seed int64, args []string) error {
 						typ = 12
 						history[len(history)-1] += " [Created, Changed]"
 					}
-				} else if forceV != -2 && r.Chance(1, 2) {
+				} else if forceV >= 0 || (forceV != -2 && r.Chance(1, 2)) {
 					v := diskVariant()
+					if forceV >= 0 {
+						v = forceV
+					}
 					disk[n] = v
 					os.MkdirAll(filepath.Dir(filepath.Join(dir, n)), 0o755)
 					os.WriteFile(filepath.Join(dir, n), []byte(c08Variant(i, v)), 0o644)
@@ -457,8 +483,9 @@ func runC08(res *lib.Result, tier string, seed int64, args []string) error {
 				}
 			}
 		}
-		if ok {
-			// settle: save every dirty buffer, then compare with a fresh server
+		{
+			// settle: save every dirty buffer, then compare with a fresh server (also when the model comparison has
+			// already failed: a difference from the fresh server is the failing input of the property itself)
 			var ds []string
 			for f := range dirty {
 				ds = append(ds, f)
@@ -485,7 +512,7 @@ func runC08(res *lib.Result, tier string, seed int64, args []string) error {
 		if hi < 1 {
 			res.Sample(map[string]interface{}{"history": history, "finalView": final})
 		}
-		if ok {
+		{
 			fresh, err := lib.StartSession(dir, lib.AllChecksOptions())
 			if err != nil {
 				os.RemoveAll(dir)
